@@ -71,7 +71,16 @@ GRAPHS = {
     # a device vertex (endpoint constraint) as sink of two nets and as source
     "device": (4, [(0, [3, 1]), (3, [2, 0]), (1, [3, 2, 3])],
                ["111d", "201D", "120d"]),
+    # three vertices meant to sit in a line (1x3, one vertex per chip): one
+    # net from the first chip straight through the middle chip, two nets
+    # injected ON the middle chip, all to the last chip: on the middle chip
+    # every entry has the same single link route, with sources {opposite
+    # link} resp. {None}; ordered covering merges them into an entry with
+    # sources {None, link} that must NOT be default-routed
+    "line": (3, [(0, [2]), (1, [2]), (1, [2, 2])], ["111", "011", "121"]),
 }
+#: the graphs of the (graph, machine, placer, method) grid
+GRID_GRAPHS = ("pair", "duo", "tri", "merge", "fan", "device")
 PLACERS = ("sequential", "hilbert", "rcm", "breadth_first", "rand", "sa")
 METHODS = ("none", "rdr", "oc", "chain")
 MACHINES = ((1, 1, False), (1, 1, True), (2, 2, False), (2, 2, True),
@@ -81,12 +90,17 @@ META = {
     "bounds":
         "One complete mapping per path.  CHOSEN (enumerated; every "
         "alternative inside a unit is explored): application graphs from a "
-        "menu of six (2-4 vertices, 2-3 nets: fan-out to 1-3 sinks, a net "
+        "menu of six + one (2-4 vertices, 2-3 nets: fan-out to 1-3 sinks, a "
+        "net "
         "that is only a self-loop, a self-loop among other sinks, a sink "
         "listed twice, two nets from one source with equal sink sets, a "
         "third net that runs straight through their sink's chip, a device "
         "vertex with a RouteEndpointConstraint that is a sink of two nets and "
-        "the source of a third); per-vertex core demands 0, 1 or 2 from three "
+        "the source of a third; outside the grid, in six units, the `line` "
+        "graph: one net running straight through a chip on which two other "
+        "nets to the same sink are injected, so that ordered covering merges "
+        "entries with sources {link} and {None}); per-vertex core demands 0, "
+        "1 or 2 from three "
         "patterns per graph (zero-core sinks and sources, vertices that do "
         "not mention cores, device vertices with {} or {Cores: 0}; demands "
         "are lowered to cap-1 where a chip has fewer cores), every "
@@ -107,7 +121,8 @@ META = {
         "chain}; target lengths None, one symbolic integer per chip "
         "(target=sym; on 3x3 only for the three chips of the diagonal, None "
         "elsewhere), a symbolic integer for the first working chip only "
-        "(target=sym1), or the number of nets for every chip (target=n); "
+        "(target=sym1), the number of nets for every chip (target=n) or 1 "
+        "for every chip (target=1, line graph only); "
         "the chain run by hand, through place_and_route_wrapper (SystemInfo "
         "with the monitor on every chip and one further busy core on the "
         "first chip, symbolic or concrete free router entries per chip, "
@@ -129,12 +144,13 @@ META = {
         "menus is NOT explored inside one unit: a unit fixes (graph, "
         "machine, placer, method, radius, target mode, link mode, dead-chip "
         "mode, demand patterns, W, cap, pin, rng, tb, entry point) and its "
-        "name in the evidence says which.  thorough (1017 units, ~90 000 "
+        "name in the evidence says which.  thorough (1023 units, ~91 000 "
         "paths) = every combination of {6 graphs} x {1x1, 2x2, 3x3} x "
         "{mesh, torus} x {6 placers} x {4 methods} by hand, plus both "
-        "wrappers with every placer on 2x2 and 3x3 (120 units), plus four "
-        "full-window (W = 3) three-net ordered-covering units, plus the "
-        "quick core set; the other dimensions are rotated by a stable hash "
+        "wrappers with every placer on 2x2 and 3x3 (120 units), plus five "
+        "full-window (W = 3) three-net ordered-covering units, five K>1 "
+        "units and three more line-graph units, plus the quick core set; "
+        "the other dimensions are rotated by a stable hash "
         "and then reduced: units with ordered covering (oc, chain) take one "
         "demand pattern, no dead chip, no dead link (two-net graphs with W = "
         "2: links=sym in half of them), W = 2 for three nets or 3x3, target "
@@ -144,7 +160,7 @@ META = {
         "an estimated <= 800 paths remain (order: links one -> sym, dead "
         "chip, demand patterns, links, symbolic target, pins, tb=4, real "
         "RNG); every unit on a 3x3 torus has tb <= 5.  quick = a fixed core "
-        "set of 24 units plus a VERIF_SEED-selected subset of the 1x1 / 2x2 "
+        "set of 27 units plus a VERIF_SEED-selected subset of the 1x1 / 2x2 "
         "grid (~45-50 units, ~5 000 paths).",
     "stubs": [
         "machine.dead_links is harness.c03.SymLinkSet in the links=sym units "
@@ -219,9 +235,11 @@ META = {
         "kernel",
         "combinations of the secondary dimensions that are not a unit.  In "
         "particular: three-net graphs under ordered covering use W = 2 "
-        "except in four W = 3 units (1x1, 1x3, 2x2 meshes); ordered covering "
+        "except in five W = 3 units (1x1, 1x3, 2x2 meshes); ordered covering "
         "on 3x3 uses W = 2; a symbolic target under ordered covering is put "
-        "on one chip only (all chips in two 2x2 core units); sa on 3x3 "
+        "on one chip only (all chips in two 2x2 core units and one 1x3 "
+        "line unit); the line graph runs only on 1x3 (and once on 3x3) with "
+        "the sequential placer; sa on 3x3 "
         "and the costliest rand/sa combinations run with random.Random(N) "
         "(one RNG outcome) instead of every outcome; rand/sa with every "
         "outcome have all but 1-3 vertices pinned on 2x2/3x3; router "
@@ -1017,6 +1035,13 @@ def units(tier, seed):
          links="none", deadchip="any", radius=0, wit=HOP)
     core("tri", 2, 2, True, "sequential", "rdr", cap=2, links="sym",
          wit=HOP)
+    # a merged entry with sources {None, link} must not be default-routed:
+    # a net passing straight through the chip that hosts two other sources
+    core("line", 1, 3, False, "sequential", "oc", cap=2, W=2, wit=HOP)
+    core("line", 1, 3, False, "sequential", "chain", cap=2, W=2,
+         target="1", dems=(0, 1), wit=HOP)
+    core("line", 1, 3, False, "sequential", "chain", via="pnr", cap=3, W=2,
+         target="1", dems=(2,), wit=HOP)
     # up to two dead links (one-directional, anywhere): a tree cut in two
     # places, repaired twice by avoid_dead_links
     core("fan", 2, 2, False, "sequential", "none", cap=2, links="sym", K=2,
@@ -1047,7 +1072,7 @@ def units(tier, seed):
 
     # ---- the grid --------------------------------------------------------
     grid = []
-    for graph in GRAPHS:
+    for graph in GRID_GRAPHS:
         for (w, h, torus) in MACHINES:
             if w == 3 and not thorough:
                 continue
@@ -1058,7 +1083,7 @@ def units(tier, seed):
         for g in grid:
             add(_combo(*g))
         # both wrappers with every placer
-        graphs = list(GRAPHS)
+        graphs = list(GRID_GRAPHS)
         for i, placer in enumerate(PLACERS):
             for j, (w, h, torus) in enumerate(MACHINES[2:]):
                 add(_combo(graphs[(i + j) % 6], w, h, torus, placer, "rdr",
@@ -1066,6 +1091,12 @@ def units(tier, seed):
                 for k, method in enumerate(METHODS):
                     add(_combo(graphs[(i + j + k + 1) % 6], w, h, torus,
                                placer, method, via="pnr"))
+        # the line graph: symbolic targets, the full window, on 3x3
+        core("line", 1, 3, False, "sequential", "chain", cap=2, W=2,
+             target="sym", wit=FAIL)
+        core("line", 1, 3, False, "sequential", "oc", cap=2, W=3, wit=HOP)
+        core("line", 3, 3, False, "sequential", "oc", cap=2, W=2,
+             dems=(0, 1, 2), wit=HOP)
         # more dead links
         core("fan", 2, 2, False, "sequential", "rdr", cap=2, links="sym",
              K=3, wit=HOP + ("no-mapping",))
